@@ -24,7 +24,7 @@ pub fn families() -> Vec<Family> {
             "1-64 concurrent tasks/batches on one AsyncClient vs. scripted server replying in seeded order with unknown-id and duplicate frames",
             c04_async_client,
         )
-        .runs(1_500, 60_000)
+        .runs(30_000, 1_800_000)
         .tokio(),
         Family::new(
             "c06_async_client",
@@ -32,7 +32,7 @@ pub fn families() -> Vec<Family> {
             "AsyncClient with 0-16 calls in flight; server closes/resets/sends malformed frames at every protocol step; timeouts racing responses; cancellation at every await point",
             c06_async_client,
         )
-        .runs(3_000, 120_000)
+        .runs(100_000, 6_000_000)
         .tokio(),
         Family::new(
             "c05_async_client",
@@ -40,7 +40,7 @@ pub fn families() -> Vec<Family> {
             "up to 32 concurrent writers on one AsyncClient, tiny socket buffers, stalled reader, callers abandoning a call mid-send (drop at poll k / enclosing timeout); wire tap shape oracle",
             c05_async_client,
         )
-        .runs(2_000, 80_000)
+        .runs(60_000, 3_600_000)
         .tokio(),
         Family::new(
             "c05_async_server",
@@ -48,7 +48,7 @@ pub fn families() -> Vec<Family> {
             "pipelined requests with large patterned echo bodies to the real AsyncServer while the client stalls; server write timeouts; wire tap shape oracle on the response stream",
             c05_async_server,
         )
-        .runs(1_500, 60_000)
+        .runs(80_000, 4_800_000)
         .tokio(),
         Family::new(
             "c03_async_server",
@@ -56,7 +56,7 @@ pub fn families() -> Vec<Family> {
             "pipelined request sequences (every handler kind, format code, malformed bodies, notifies) to the real AsyncServer vs. routing/dispatch model",
             c03_async_server,
         )
-        .runs(2_500, 100_000)
+        .runs(80_000, 4_800_000)
         .tokio(),
     ]
 }
@@ -230,6 +230,13 @@ fn c04_async_client(case: &Case) {
             }
             if permuted {
                 srv_case.probe("replies_out_of_arrival_order");
+            }
+            if answered.len() <= 6 && !answered.is_empty() {
+                // which of the k! reply orders this run exercised (arrival rank of each answered request)
+                let mut arrival: Vec<u64> = seen_ids.iter().copied().filter(|id| answered.iter().any(|a: &Frame| a.id == *id)).collect();
+                arrival.sort();
+                let perm: Vec<String> = answered.iter().map(|a| arrival.iter().position(|x| *x == a.id).unwrap_or(9).to_string()).collect();
+                srv_case.cover("reply_order(k<=6; 1+2+6+24+120+720=873 orders)", format!("{}:{}", answered.len(), perm.join("")));
             }
         });
 
